@@ -73,9 +73,9 @@ void h_cmp(void) {
   build();
   int want = 0; for (int i = 0; i <= LA && i <= LB; i++) { unsigned char x = (unsigned char)in_a[i], y = (unsigned char)in_b[i]; if (x != y) { want = x < y ? -1 : 1; break; } }
   int r = String_Cmp(sa, sb), q = String_Cmp(sb, sa);
-  ASSERT((r < 0) == (want < 0) && (r > 0) == (want > 0), "[C09] cmp on Strings is the byte-wise lexicographic order of the C library (bytes as unsigned char, prefix first)");
-  ASSERT((q < 0) == (want > 0) && (q > 0) == (want < 0), "[C09] cmp(b, a) has the opposite sign of cmp(a, b)");
-  ASSERT(String_Cmp(sa, sa) == 0, "[C09] a String compares equal to itself");
+  ASSERT((r < 0) == (want < 0) && (r > 0) == (want > 0), "[C09][C16] cmp on Strings is the byte-wise lexicographic order of the C library (bytes as unsigned char, prefix first)");
+  ASSERT((q < 0) == (want > 0) && (q > 0) == (want < 0), "[C09][C16] cmp(b, a) has the opposite sign of cmp(a, b)");
+  ASSERT(String_Cmp(sa, sa) == 0, "[C09][C16] a String compares equal to itself");
   for (int i = 0; i <= LA; i++) ASSERT(sa->val[i] == in_a[i], "cmp leaves its operands alone");
   COVER_ALT(want < 0, "smaller"); COVER_ALT(want > 0, "greater"); COVER_ALT(want == 0, "equal texts");
 }
